@@ -119,3 +119,215 @@ package ysgo
 //@           (err == nil ==> World == setvar(Eval(statement.Value, old(World)).w, statement.VariableID, Eval(statement.Value, old(World)).val))
 //@   ensures "failed-statement-writes-nothing": err != nil ==> nwrites(World) == nwrites(old(World))
 //@   ensures "no-dispatch": ndispatch(World) == ndispatch(old(World))
+//
+// ---- runner.go: continuation stack (C01), visit tracking (C11) ------------------------------------------------
+//
+// K(dr) is the flat continuation: the statements still to run, in order. Every queue on the stack
+// carries (ghost) the continuation beneath it, fixed when the queue is pushed.
+//
+//@ ghost field statementQueue.below seq[*tree.Statement]
+//
+//@ pure func (q *statementQueue) rest() seq[*tree.Statement] { return seq(q.statements)[q.pointer:] }
+//@ pure func (q *statementQueue) cont() seq[*tree.Statement] { return q.rest() ++ q.below }
+//@ pure func (dr *DialogueRunner) stk() seq[*statementQueue] { return seq(*(&dr.statementsToRun)) }
+//@ pure func (dr *DialogueRunner) K() seq[*tree.Statement] {
+//@     return len(dr.stk()) == 0 ? seq[*tree.Statement]{} : dr.stk()[len(dr.stk()) - 1].cont() }
+//@ pred (dr *DialogueRunner) wfStack() {
+//@     (forall i int :: {dr.stk()[i]} 0 <= i && i < len(dr.stk()) ==>
+//@         dr.stk()[i] != nil && 0 <= dr.stk()[i].pointer && dr.stk()[i].pointer <= len(dr.stk()[i].statements)) &&
+//@     (forall i int, j int :: {dr.stk()[i], dr.stk()[j]} 0 <= i && i < j && j < len(dr.stk()) ==> dr.stk()[i] != dr.stk()[j]) &&
+//@     (len(dr.stk()) > 0 ==> len(dr.stk()[0].below) == 0) &&
+//@     (forall i int :: {dr.stk()[i]} 1 <= i && i < len(dr.stk()) ==> dr.stk()[i].below == dr.stk()[i - 1].cont()) }
+//
+//@ func (sq *statementQueue) nextStatement() (st *tree.Statement, ok bool)
+//@   arith checked
+//@   requires sq != nil && 0 <= sq.pointer && sq.pointer <= len(sq.statements)
+//@   modifies sq.pointer
+//@   ensures "in-order-once": ok == (old(sq.pointer) < len(sq.statements)) &&
+//@           (ok ==> st == sq.statements[old(sq.pointer)] && sq.pointer == old(sq.pointer) + 1) &&
+//@           (!ok ==> st == nil && sq.pointer == old(sq.pointer))
+//
+//@ pure func (dr *DialogueRunner) tracked() bool {
+//@     return firstNode(dr.dialogue, dr.currentNode) >= 0 &&
+//@            dr.dialogue.Nodes[firstNode(dr.dialogue, dr.currentNode)].Headers != nil &&
+//@            dr.dialogue.Nodes[firstNode(dr.dialogue, dr.currentNode)].Headers["tracking"] != "never" }
+//
+//@ func (dr *DialogueRunner) incrementNodeTrackingIfAllowed()
+//@   requires dr != nil && dr.dialogue != nil && dr.visitedNodes != nil
+//@   modifies mapcontent(dr.visitedNodes)
+//@   ensures "counts-the-node-being-left": dr.tracked() ==>
+//@               dom(dr.visitedNodes) == mapstore(old(dom(dr.visitedNodes)), dr.currentNode, true) &&
+//@               mapval(dr.visitedNodes) == mapstore(old(mapval(dr.visitedNodes)), dr.currentNode, old(dr.visitedNodes[dr.currentNode]) + 1)
+//@   ensures "untracked-unchanged": !dr.tracked() ==>
+//@               dom(dr.visitedNodes) == old(dom(dr.visitedNodes)) && mapval(dr.visitedNodes) == old(mapval(dr.visitedNodes))
+//
+//@ closure NewDialogueRunner$1(node string) (res bool)
+//@   requires "capture": *runner != nil
+//@   ensures "visited": res == (node in (*runner).visitedNodes)
+//
+//@ closure NewDialogueRunner$2(node string) (res int)
+//@   requires "capture": *runner != nil
+//@   ensures "visited-count": res == (*runner).visitedNodes[node]
+//
+//@ func (dr *DialogueRunner) textElementsToMarkup(elements []*tree.LineFormattedTextElement) (res *markup.ParseResult, err error)
+//@   requires dr.hostOK()
+//@   requires forall i int :: {elements[i]} 0 <= i && i < len(elements) ==> elements[i] != nil && (elements[i].Expression != nil ==> wfExpr(elements[i].Expression))
+//@   modifies World, fields(&dr.lineParser)
+//@   ensures "render-in-order": (err == nil) == (Render(elements, old(World)).rok && parseOk(Render(elements, old(World)).text)) &&
+//@           (err == nil ==> res != nil && fresh(res) && res.src == Render(elements, old(World)).text && World == Render(elements, old(World)).rw) &&
+//@           (err != nil ==> res == nil)
+//@   ensures "no-writes": nwrites(World) == nwrites(old(World)) && ndispatch(World) == ndispatch(old(World))
+//@   loop 0: invariant 0 <= rangeindex + 1 && RenderFrom(elements, 0, "", old(World)) == RenderFrom(elements, rangeindex + 1, (&builder).content, World)
+//@   loop 0: invariant nwrites(World) == nwrites(old(World)) && ndispatch(World) == ndispatch(old(World))
+//
+//@ func (dr *DialogueRunner) executeIfStatement(statement *tree.IfStatement) (err error)
+//@   requires dr.hostOK() && dr.wfStack() && statement != nil
+//@   requires forall i int :: {statement.Clauses[i]} 0 <= i && i < len(statement.Clauses) ==> statement.Clauses[i] != nil && wfExpr(statement.Clauses[i].Condition)
+//@   modifies World, *(&dr.statementsToRun), elems(*(&dr.statementsToRun))
+//@   ensures "first-true-clause": (err == nil) == FirstTrueFrom(statement, 0, old(World)).cok &&
+//@           (err == nil ==> World == FirstTrueFrom(statement, 0, old(World)).cw &&
+//@               dr.K() == (FirstTrueFrom(statement, 0, old(World)).idx >= 0
+//@                           ? seq(statement.Clauses[FirstTrueFrom(statement, 0, old(World)).idx].Statements) ++ old(dr.K()) : old(dr.K()))) &&
+//@           (err != nil ==> dr.K() == old(dr.K()))
+//@   ensures "wf": dr.wfStack()
+//@   ensures "no-writes": nwrites(World) == nwrites(old(World)) && ndispatch(World) == ndispatch(old(World))
+//@   ghost before call Push#0 { arg1.below = dr.K() }
+//@   ghost after call Push#0 {
+//@       assert "len": len(dr.stk()) == len(old(dr.stk())) + 1
+//@       assert "top": dr.stk()[len(dr.stk()) - 1] == arg1
+//@       assert "rest": arg1.rest() == seq(arg1.statements)
+//@       assert "below": arg1.below == old(dr.K())
+//@       assert "k": dr.K() == seq(arg1.statements) ++ old(dr.K())
+//@   }
+//@   loop 0: invariant 0 <= rangeindex + 1 && FirstTrueFrom(statement, 0, old(World)) == FirstTrueFrom(statement, rangeindex + 1, World)
+//@   loop 0: invariant nwrites(World) == nwrites(old(World)) && ndispatch(World) == ndispatch(old(World))
+//
+// ---- function_storer.go: dispatch of registered functions -------------------------------------------------------
+//
+//@ pred (s *functionStorer) coupled() {
+//@     s != nil && s.functionsByID != nil &&
+//@     (forall id string :: {id in s.functionsByID} {ftable(id)} (id in s.functionsByID) == (ftable(id) != 0)) &&
+//@     (forall id string :: {s.functionsByID[id]} id in s.functionsByID ==> s.functionsByID[id] == ftable(id)) }
+//
+//@ func (storer *functionStorer) call(functionID string, args []*variable.Value) (v *variable.Value, err error)
+//@   requires storer.coupled()
+//@   requires "args-well-formed": allWf(args)
+//@   modifies World
+//@   ensures "calls-the-registered-function-once": World == fcallW(old(World), functionID, absvals(args)) &&
+//@           (err == nil) == fcallOk(old(World), functionID, absvals(args)) &&
+//@           (err == nil ==> absval(v) == fcallVal(old(World), functionID, absvals(args))) &&
+//@           (err != nil ==> v == nil) && (err == nil && v != nil ==> wfVal(v))
+//@   ensures "unknown-is-error": ftable(functionID) == 0 ==> err != nil && World == old(World)
+//
+// ---- command_storer.go: dispatch of registered commands (C10, C17) ------------------------------------------
+//
+//@ pred (s *commandStorer) coupled() {
+//@     s != nil && s.commandsByID != nil &&
+//@     (forall id string :: {id in s.commandsByID} {ctable(id)} (id in s.commandsByID) == (ctable(id) != 0)) &&
+//@     (forall id string :: {s.commandsByID[id]} id in s.commandsByID ==> s.commandsByID[id] == ctable(id)) }
+//
+//@ func (storer *commandStorer) call(commandID string, args []*variable.Value) (ch <-chan error)
+//@   requires storer.coupled()
+//@   requires "args-well-formed": allWf(args)
+//@   modifies World
+//@   ensures "invokes-the-registered-handler-once": ctable(commandID) != 0 ==>
+//@               World == cvalW(old(World), ctable(commandID), absvals(args)) && ch == cvalCh(old(World), ctable(commandID), absvals(args))
+//@   ensures "unknown-is-error": ctable(commandID) == 0 ==>
+//@               World == old(World) && ch != nil && fresh(ch) && ready(ch) && recv(ch) != nil
+//
+//@ func chanWithImmediateValue(value V) (ch <-chan V)
+//@   ensures "ready-with-value": ch != nil && fresh(ch) && ready(ch) && recv(ch) == value
+//
+// ---- runner.go: call, command and jump statements ------------------------------------------------------------
+//
+//@ func (dr *DialogueRunner) executeCallStatement(statement *tree.CallStatement) (err error)
+//@   requires dr.hostOK() && dr.functionStorer.coupled() && statement != nil && wfCall(statement.FunctionCall)
+//@   modifies World
+//@   ensures "args-left-to-right-then-call-once":
+//@           (err == nil) == (EvalFrom(statement.FunctionCall, 0, seq[Val]{}, old(World)).aok &&
+//@               fcallOk(EvalFrom(statement.FunctionCall, 0, seq[Val]{}, old(World)).aw, statement.FunctionCall.FunctionID, EvalFrom(statement.FunctionCall, 0, seq[Val]{}, old(World)).vals)) &&
+//@           (EvalFrom(statement.FunctionCall, 0, seq[Val]{}, old(World)).aok ==>
+//@               World == fcallW(EvalFrom(statement.FunctionCall, 0, seq[Val]{}, old(World)).aw, statement.FunctionCall.FunctionID, EvalFrom(statement.FunctionCall, 0, seq[Val]{}, old(World)).vals))
+//@   ensures "no-writes": nwrites(World) == nwrites(old(World)) && ndispatch(World) == ndispatch(old(World))
+//@   ghostlocal gvals seq[Val]
+//@   ghost after call append#0 {
+//@       gvals = snoc(gvals, absval(value))
+//@       assert "len": len(callres) == len(gvals)
+//@       assert "last": absval(callres[len(callres) - 1]) == gvals[len(gvals) - 1]
+//@       assert "prefix": forall k int :: {callres[k]} 0 <= k && k < len(callres) - 1 ==> absval(callres[k]) == gvals[k]
+//@       assert "eq": gvals == absvals(callres)
+//@   }
+//@   loop 0: invariant "args": 0 <= rangeindex + 1 && rangeindex + 1 <= len(statement.FunctionCall.Arguments) && len(values) == rangeindex + 1 &&
+//@                     fresh(values) && gvals == absvals(values) &&
+//@                     (forall k int :: {gvals[k]} 0 <= k && k < len(gvals) ==> gvals[k] != VNone) &&
+//@                     EvalFrom(statement.FunctionCall, 0, seq[Val]{}, old(World)) == EvalFrom(statement.FunctionCall, rangeindex + 1, gvals, World)
+//@   loop 0: invariant "no-writes": nwrites(World) == nwrites(old(World)) && ndispatch(World) == ndispatch(old(World))
+//
+//@ func (dr *DialogueRunner) executeCommandStatement(statement *tree.CommandStatement) (stop bool, err error)
+//@   requires dr.hostOK() && dr.commandStorer.coupled() && statement != nil && dr.commandErrChan == nil
+//@   requires forall i int :: {statement.Elements[i]} 0 <= i && i < len(statement.Elements) ==> statement.Elements[i] != nil && wfExpr(statement.Elements[i].Expression)
+//@   modifies World, dr.commandErrChan
+//@   ensures "not-dispatchable-is-error": !cmdOK(statement, old(World)) ==>
+//@               err != nil && !stop && ndispatch(World) == ndispatch(old(World)) && dr.commandErrChan == nil
+//@   ensures "stop-never-dispatched": cmdOK(statement, old(World)) && cmdName(statement, old(World)) == "stop" ==>
+//@               stop && err == nil && World == EvalEls(statement, old(World)).aw && ndispatch(World) == ndispatch(old(World)) && dr.commandErrChan == nil
+//@   ensures "name-then-args-once": cmdOK(statement, old(World)) && cmdName(statement, old(World)) != "stop" && ctable(cmdName(statement, old(World))) != 0 ==>
+//@               !stop && ndispatch(World) == ndispatch(old(World)) + 1 &&
+//@               (readyIn(cmdW(statement, old(World)), cvalCh(EvalEls(statement, old(World)).aw, ctable(cmdName(statement, old(World))), cmdArgs(statement, old(World))))
+//@                 ? (dr.commandErrChan == nil &&
+//@                    World == recvW(cmdW(statement, old(World)), cvalCh(EvalEls(statement, old(World)).aw, ctable(cmdName(statement, old(World))), cmdArgs(statement, old(World)))) &&
+//@                    (err == nil) == (recvIn(cmdW(statement, old(World)), dr.chanOf(statement, old(World))) == nil))
+//@                 : (err == nil && World == cmdW(statement, old(World)) && dr.commandErrChan == dr.chanOf(statement, old(World))))
+//@   ensures "unknown-is-error": cmdOK(statement, old(World)) && cmdName(statement, old(World)) != "stop" && ctable(cmdName(statement, old(World))) == 0 ==>
+//@               err != nil && !stop && ndispatch(World) == ndispatch(old(World)) && dr.commandErrChan == nil
+//@   ensures "no-writes": nwrites(World) == nwrites(old(World))
+//@   ghostlocal gvals seq[Val]
+//@   ghost after call append#0 {
+//@       gvals = snoc(gvals, absval(value))
+//@       assert "len": len(callres) == len(gvals)
+//@       assert "last": absval(callres[len(callres) - 1]) == gvals[len(gvals) - 1]
+//@       assert "prefix": forall k int :: {callres[k]} 0 <= k && k < len(callres) - 1 ==> absval(callres[k]) == gvals[k]
+//@       assert "eq": gvals == absvals(callres)
+//@   }
+//@   ghost before call call#0 {
+//@       assert "shift": forall k int :: {arg2[k]} 0 <= k && k < len(arg2) ==> arg2[k] == values[k + 1]
+//@       assert "tail": absvals(arg2) == gvals[1:]
+//@   }
+//@   loop 0: invariant "args": 0 <= rangeindex + 1 && rangeindex + 1 <= len(statement.Elements) && len(values) == rangeindex + 1 &&
+//@                     fresh(values) && gvals == absvals(values) &&
+//@                     (forall k int :: {gvals[k]} 0 <= k && k < len(gvals) ==> gvals[k] != VNone) &&
+//@                     EvalElFrom(statement, 0, seq[Val]{}, old(World)) == EvalElFrom(statement, rangeindex + 1, gvals, World)
+//@   loop 0: invariant "no-writes": nwrites(World) == nwrites(old(World)) && ndispatch(World) == ndispatch(old(World)) && dr.commandErrChan == nil
+//@ pure func (dr *DialogueRunner) chanOf(statement *tree.CommandStatement, w World) <-chan error {
+//@     return cvalCh(EvalEls(statement, w).aw, ctable(cmdName(statement, w)), cmdArgs(statement, w)) }
+//
+// A jump abandons everything pending and continues at the first statement of the target node; the
+// node being left is counted (if tracked) and the variables are copied as of this node entry.
+//
+//@ pure func (dr *DialogueRunner) jumpOK(statement *tree.JumpStatement, w World) bool {
+//@     return Eval(statement.Expression, w).ok && isVStr(Eval(statement.Expression, w).val) &&
+//@            firstNode(dr.dialogue, Eval(statement.Expression, w).val.s) >= 0 }
+//@ pure func (dr *DialogueRunner) jumpNode(statement *tree.JumpStatement, w World) tree.Node {
+//@     return dr.dialogue.Nodes[firstNode(dr.dialogue, Eval(statement.Expression, w).val.s)] }
+//
+//@ func (dr *DialogueRunner) executeJumpStatement(statement *tree.JumpStatement) (err error)
+//@   requires dr.hostOK() && dr.wfStack() && dr.dialogue != nil && dr.visitedNodes != nil && statement != nil && wfExpr(statement.Expression)
+//@   modifies World, mapcontent(dr.visitedNodes), dr.variableSnapshot, dr.currentNode, *(&dr.statementsToRun), elems(*(&dr.statementsToRun))
+//@   ensures "error-changes-nothing": (err == nil) == dr.jumpOK(statement, old(World)) &&
+//@           (err != nil ==> dr.K() == old(dr.K()) && dr.currentNode == old(dr.currentNode) && dr.variableSnapshot == old(dr.variableSnapshot) &&
+//@                           dom(dr.visitedNodes) == old(dom(dr.visitedNodes)) && mapval(dr.visitedNodes) == old(mapval(dr.visitedNodes)))
+//@   ensures "abandon-and-enter": err == nil ==>
+//@               World == Eval(statement.Expression, old(World)).w &&
+//@               dr.K() == seq(dr.jumpNode(statement, old(World)).Statements) &&
+//@               dr.currentNode == dr.jumpNode(statement, old(World)).Headers["title"]
+//@   ensures "counts-the-node-being-left-once": err == nil ==>
+//@               (old(dr.tracked())
+//@                  ? (dom(dr.visitedNodes) == mapstore(old(dom(dr.visitedNodes)), old(dr.currentNode), true) &&
+//@                     mapval(dr.visitedNodes) == mapstore(old(mapval(dr.visitedNodes)), old(dr.currentNode), old(dr.visitedNodes[dr.currentNode]) + 1))
+//@                  : (dom(dr.visitedNodes) == old(dom(dr.visitedNodes)) && mapval(dr.visitedNodes) == old(mapval(dr.visitedNodes))))
+//@   ensures "variables-copied-at-node-entry": err == nil ==>
+//@               dr.variableSnapshot != nil && fresh(dr.variableSnapshot) &&
+//@               (forall n string :: {n in dr.variableSnapshot} (n in dr.variableSnapshot) == (store(World, n) != VNone)) &&
+//@               (forall n string :: {dr.variableSnapshot[n]} n in dr.variableSnapshot ==> absvalOf(dr.variableSnapshot[n]) == store(World, n))
+//@   ensures "wf": dr.wfStack()
+//@   ensures "no-writes": nwrites(World) == nwrites(old(World)) && ndispatch(World) == ndispatch(old(World))
